@@ -494,6 +494,8 @@ class Scenario(object):
         self.join_unknown = join_unknown  # undecided `if`: run both arms and join the normal exits (call/store sets are united)
 
 
+HASHLIB_CTORS = ('md5', 'sha1', 'sha224', 'sha256', 'sha384', 'sha512', 'sha3_224', 'sha3_256', 'sha3_384', 'sha3_512', 'blake2b', 'blake2s')
+
 BUILTIN_TYPES = {'str', 'bytes', 'bytearray', 'int', 'bool', 'list', 'tuple', 'set', 'dict', 'NoneType', 'datetime',
                  'timedelta'}
 
@@ -1576,6 +1578,13 @@ class Frame(object):
                 if len(args) > 1:
                     h.items.extend(as_items(args[1]))
                 return h
+            if fname is not None and fname.startswith('hashlib.') and fname[8:] in HASHLIB_CTORS:
+                # hashlib.sha1([data]) is hashlib.new('sha1'[, data])
+                record(fname)
+                h = Hasher(fname[8:])
+                if args:
+                    h.items.extend(as_items(args[0]))
+                return h
             if fname in ('hashes.Hash',) and args:
                 record(fname)
                 return Hasher(render(args[0]))
@@ -1630,6 +1639,10 @@ class Frame(object):
                 if r is not None:
                     return r
                 return Sym('%s(%s)' % (n, self._argtext(args, kwargs)))
+            if isinstance(callee, ClassV) and n not in self.fi.params:
+                # a local (not a parameter such as `cls`) bound to a class (k = A if c else B; k()): the call constructs that class
+                record(callee.ci.name)
+                return self._construct(callee.ci, args, kwargs, st, node)
             if n in ('bytearray', 'bytes'):
                 record(n)
                 if not args:
@@ -1655,6 +1668,13 @@ class Frame(object):
                         return Const(sum(len(i[1]) for i in its))
                 if isinstance(a, ListV):
                     return Const(len(a.elems))
+                lcls = a.cls if isinstance(a, (Sym, Obj)) else None
+                lfi = lcls.find_method('__len__') if lcls is not None else None
+                if lfi is not None and self.sc.inline is not None and self.sc.inline(lfi):
+                    # len(x) on an object of a known class is x.__len__() (only under an explicit inlining policy)
+                    r = self._maybe_inline(lfi, a, [], {}, st, node)
+                    if r is not None:
+                        return r
                 return Sym('len(%s)' % render(a))
             if n in ('int', 'bool', 'str') and len(args) == 1 and isinstance(args[0], Const) and \
                     not isinstance(args[0].value, Enum):
